@@ -67,7 +67,7 @@ def gen_data(rs, n, nx, ny, paired, flavour):
         c = int(rs.randint(0, 5)); d = int(rs.choice([-3, -1, 2, 4]))
         x[i, j, :] = x[j, i, :] = c
         y[i, j, :] = y[j, i, :] = c + d
-    return x, y
+    return x, y, sorted(set(eff))
 
 
 def gen_cases(rs, tier):
@@ -80,13 +80,38 @@ def gen_cases(rs, tier):
         nx = int(rs.randint(3, 8))
         ny = nx if paired else int(rs.choice([v for v in range(3, 8) if v != nx]))
         flavour = ('plain', 'const', 'const', 'const-sep')[t % 4] if t % 8 != 7 or paired else 'const-sep'
-        x, y = gen_data(rs, n, nx, ny, paired, flavour)
+        x, y, eff = gen_data(rs, n, nx, ny, paired, flavour)
         r = rs.rand()
         thr = float(np.round(rs.uniform(1.0, 2.8), 4)) if r < 0.75 else (float(np.round(rs.uniform(0.05, 1.0), 4)) if r < 0.9 else
               (float(np.round(rs.uniform(6, 30), 3)) if r < 0.96 else float(np.round(rs.uniform(-1.5, -0.1), 4))))
         cases.append({'n': n, 'nx': nx, 'ny': ny, 'x': x.astype(int).tolist(), 'y': y.astype(int).tolist(), 'thr': thr,
                       'tail': TAILS[int(rs.randint(3))], 'paired': paired, 'k': int(rs.randint(20, 51)),
-                      'seed': int(rs.randint(2 ** 31 - 1)), 'flavour': flavour})
+                      'seed': int(rs.randint(2 ** 31 - 1)), 'flavour': flavour, 'exp': 0, 'cexp': None, 'scale': 'unit'})
+    # ---- the same kind of data in exact dyadic units: t is scale invariant, every predicate must be unchanged
+    M = 90 if quick else 1500
+    for t in range(M):
+        paired = (t % 3 == 2)
+        n = int(rs.randint(4, 7))
+        nx = int(rs.randint(3, 8))
+        ny = nx if paired else int(rs.choice([v for v in range(3, 8) if v != nx]))
+        flavour = ('plain', 'const')[t % 2]
+        x, y, eff = gen_data(rs, n, nx, ny, paired, flavour)
+        thr = float(np.round(rs.uniform(1.0, 2.8), 4))
+        exp, cexp, scale = 0, None, 'unit'
+        if t % 2 == 0:
+            exp = int((-30, -40, 20, -60)[(t // 2) % 4]); scale = 'global2^%d' % exp
+        else:                                   # mixed: one or two effect edges in tiny units next to unit-scale edges
+            ce = np.zeros((n, n), dtype=int)
+            for (i, j) in eff[:1 + (t // 2) % 2]:
+                ce[i, j] = ce[j, i] = -35 if (t // 4) % 2 == 0 else -70
+            if (t // 2) % 3 == 2:
+                i, j = int(rs.randint(n)), int(rs.randint(n))
+                if i != j:
+                    ce[i, j] = ce[j, i] = 20
+            cexp = ce.tolist(); scale = 'mixed'
+        cases.append({'n': n, 'nx': nx, 'ny': ny, 'x': x.astype(int).tolist(), 'y': y.astype(int).tolist(), 'thr': thr,
+                      'tail': TAILS[int(rs.randint(3))], 'paired': paired, 'k': int(rs.randint(20, 41)),
+                      'seed': int(rs.randint(2 ** 31 - 1)), 'flavour': flavour, 'exp': exp, 'cexp': cexp, 'scale': scale})
     return cases
 
 
@@ -174,7 +199,9 @@ def split_log(log, paired, nx):
 def run_case(c):
     bct = import_bct()
     n, nx, ny = c['n'], c['nx'], c['ny']
-    x = np.array(c['x'], dtype=float); y = np.array(c['y'], dtype=float)
+    E = np.full((n, n), int(c.get('exp') or 0)) + (np.array(c['cexp']) if c.get('cexp') is not None else 0)
+    S = np.ldexp(1.0, E)[:, :, None]            # exact powers of two: the scaled data are exact floats
+    x = np.array(c['x'], dtype=float) * S; y = np.array(c['y'], dtype=float) * S
     thr, tail, paired, k = c['thr'], c['tail'], c['paired'], c['k']
     out = {'fails': [], 'status': None, 'line': None, 'expected': None, 'skipped': False, 'ncomp': 0, 'undefined': 0, 'sym': 0}
     F = out['fails']
@@ -185,7 +212,11 @@ def run_case(c):
     if st == 'timeout':
         return out
     line = 'nbs n=%d nx=%d ny=%d x=%s y=%s thr=%s tail=%s paired=%d k=%d draws=%s' % (
-        n, nx, ny, mat_str(x0), mat_str(y0), frac_str(thr), tail, int(paired), k, ','.join(str(d) for d in rec.flat()) or '-')
+        n, nx, ny, mat_str(c['x']), mat_str(c['y']), frac_str(thr), tail, int(paired), k, ','.join(str(d) for d in rec.flat()) or '-')
+    if c.get('exp'):
+        line += ' exp=%d' % c['exp']
+    if c.get('cexp') is not None:
+        line += ' cexp=' + mat_str(c['cexp'])
     logs = split_log(rec.log, paired, nx)
     orc = oracle(c, logs)
     out['undefined'] = orc['undefined']
@@ -288,7 +319,7 @@ def malformed_stream(rs):
     bct = import_bct()
     items = []
     n, nx, ny = 4, 4, 5
-    x, y = gen_data(rs, n, nx, ny, False, 'plain')
+    x, y, _ = gen_data(rs, n, nx, ny, False, 'plain')
 
     def line(x, y, nx, ny, thr, tail, paired, k, draws='-'):
         return 'nbs n=%d nx=%d ny=%d x=%s y=%s thr=%s tail=%s paired=%d k=%d draws=%s' % (n, nx, ny, mat_str(x), mat_str(y), frac_str(thr), tail, paired, k, draws)
@@ -327,8 +358,8 @@ def drive(lines):
 def main():
     ck = Check(PID)
     ck.cov['rule'] = ('cases = (x stack, y stack, threshold, tail, paired, k, seed): N = 4..6 nodes, integer-valued symmetric matrices, group sizes 3..7 '
-                      '(unequal unless paired), effect clusters of either sign, constant (zero-variance) edges, k = 20..50, thresholds mostly 1.2..4 plus '
-                      'small / huge / negative ones; non-trivial = distinct case in which nbs_bct returned and the oracle finds at least one component; '
+                      '(unequal unless paired), effect clusters of either sign, constant (zero-variance) edges, k = 20..50, thresholds mostly 1..2.8 plus '
+                      'small / huge / negative ones; a family with the same data in exact dyadic units (all data x 2^-30, 2^-40, 2^20; single effect edges at 2^-35 next to unit-scale edges); non-trivial = distinct case in which nbs_bct returned and the oracle finds at least one component; '
                       'cases with an attained statistic within 1e-6 of the threshold are skipped and counted')
     ck.assumptions += ['data are integer valued so that exact and float statistics differ by far less than the 1e-6 threshold margin',
                        'group sizes >= 3 (property quantifier); the t statistic of an edge that is constant over all subjects (0/0) is treated as not exceeding any threshold >= 0',
@@ -344,12 +375,12 @@ def main():
     lines, meta = [], []
     for c, r in zip(cases, results):
         ck.count('status:' + str(r['status'])); ck.count('n=%d' % c['n']); ck.count('tail:' + c['tail']); ck.count('paired' if c['paired'] else 'two-sample')
-        ck.count('flavour:' + c['flavour']); ck.count('symmetry_calls', r['sym']); ck.count('undefined_t_cells(0/0)', r['undefined'])
+        ck.count('flavour:' + c['flavour']); ck.count('scale:' + c.get('scale', 'unit')); ck.count('symmetry_calls', r['sym']); ck.count('undefined_t_cells(0/0)', r['undefined'])
         if r['skipped']:
             ck.count('skipped_near_threshold')
         nontriv = r['status'] == 'ok' and r['ncomp'] > 0
-        ck.case(sample={k_: c[k_] for k_ in ('n', 'nx', 'ny', 'thr', 'tail', 'paired', 'k', 'seed', 'flavour')} | {'components': r['ncomp'], 'x[:,:,0]': np.array(c['x'])[:, :, 0].tolist()} if nontriv else None,
-                nontrivial_key=digest([c['x'], c['y'], c['thr'], c['tail'], c['paired'], c['k'], c['seed']]) if nontriv else None)
+        ck.case(sample={k_: c[k_] for k_ in ('n', 'nx', 'ny', 'thr', 'tail', 'paired', 'k', 'seed', 'flavour', 'scale', 'exp')} | {'components': r['ncomp'], 'x[:,:,0]': np.array(c['x'])[:, :, 0].tolist()} if nontriv else None,
+                nontrivial_key=digest([c['x'], c['y'], c['thr'], c['tail'], c['paired'], c['k'], c['seed'], c.get('exp'), c.get('cexp')]) if nontriv else None)
         ck.count('components=%d' % min(r['ncomp'], 3))
         for pred, info, cond in r['fails']:
             ck.violation('nbs_bct', pred, {'case': c, 'info': info}, cond)
